@@ -137,13 +137,14 @@ def can_increase(value, rt, whole):
     return False
 
 
-def run(ctx):
+def capacity_gates(ctx, rule, only=None):
+    """Every object that can gain substance leaves its function only after `new volume > capacity -> ValueError`."""
     model = ctx.model
     cont = model.cls('Container')
     n_capacity = 0
     # ------------------------------------------------------------------ R1 capacity gates
     for m in list(cont.methods.values()):
-        if m.name == '__init__':
+        if m.name == '__init__' or (only is not None and m.name not in only):
             continue
         ff = ctx.flow(m.qualname)
         cs = contents_stores(ff)
@@ -168,15 +169,75 @@ def run(ctx):
                 g = gate_with(ex.state, cap_gate, 'ValueError')
                 inst = f"capacity gate for `{okey}` on the exit at line {ex.line}"
                 if not g:
-                    ctx.ob('C03.R1', m, ex.line, inst, False,
+                    ctx.ob(rule, m, ex.line, inst, False,
                            fact=f"final volume {show(final) if final is not None else 'not recomputed'}",
                            why=f"`{okey}` can gain substance and leave {m.name} without `new volume > {okey}.max_volume -> ValueError`",
                            key=f"no capacity gate for {okey}")
                     continue
                 c = g[0]
-                ctx.ob('C03.R1', m, c.fact.line, inst, c.op == 'le', fact=str(c),
+                ctx.ob(rule, m, c.fact.line, inst, c.op == 'le', fact=str(c),
                        why='the gate refuses an exact fill (raises when new volume >= capacity)',
                        key=f"non-strict capacity gate for {okey}")
+    return n_capacity
+
+
+def sufficiency(ctx, rule):
+    """Every unit branch of the transfer is gated by requested <= available (ValueError), measured alike."""
+    model = ctx.model
+    # ------------------------------------------------------------------ R2 sufficiency per unit branch
+    tr = model.func('Container._transfer')
+    fft = ctx.flow('Container._transfer')
+    ratio = find_ratio(fft)
+    if ratio is None:
+        raise AnalysisError('Container._transfer: cannot find the per-substance factor `amount * ratio`')
+    ratio_val, loop = ratio
+    ratio_val = strip_clamp(ratio_val)
+    options = [o for o in definitions_of(ratio_val) if isinstance(o, Ref)]
+    ctx.ob(rule, tr, tr.node.lineno, 'transfer has a branch per quantity unit (L, g, mol, U)', len(options) >= 4,
+           fact=f"{len(options)} definitions of the transfer ratio", why='a quantity unit lost its branch',
+           key='unit branch missing', nontrivial=False)
+    loop_state = fft.state_before(loop)
+
+    def ratio_le_one(c):
+        return c.op == 'le' and (c.left is ratio_val or unround(c.left)[0] is ratio_val) and const_value(c.right) == 1
+    global_gate = gate_with(loop_state, ratio_le_one, 'ValueError')
+    for o in options:
+        v = strip_refs(o)
+        unit_lbl = branch_label(fft.state_before(o.stmt))
+        ok = bool(global_gate)
+        fact = 'gate on the ratio itself' if ok else ''
+        if not ok and isinstance(v, ast.BinOp) and isinstance(v.op, ast.Div):
+            num, den = v.left, v.right
+
+            def enough(c, num=num, den=den):
+                return c.op == 'le' and (c.left is num or same_value(unround(c.left)[0], unround(num)[0])) and \
+                    (c.right is den or same_value(unround(c.right)[0], unround(den)[0]))
+            g = gate_with(fft.state_before(o.stmt), enough, 'ValueError')
+            ok = bool(g)
+            fact = str(g[0]) if g else f"ratio = {show(v, 80)} with no `requested > available -> ValueError` gate"
+        ctx.ob(rule, tr, o.lineno, f"sufficiency gate on the `{unit_lbl}` branch of the transfer", ok, fact=fact,
+               why=f"a transfer in {unit_lbl} can take more than the source holds (ratio > 1 gives negative amounts)",
+               key=f"no sufficiency gate on unit branch {unit_lbl}")
+
+    # requested and available are measured alike (units engine): otherwise the gate compares apples with pears
+    from . import targets
+    from .. import uscan
+    sc = targets.scan(ctx, 'Container._transfer')
+    uscan.report_sinks(ctx, lambda cat: rule if cat in ('sum-mix', 'convert-from-unit', 'add-units', 'compare-units',
+                                                            'to-storage', 'storage-label') else None, sc)
+
+    ctx.count('ratio_branches', len(options))
+    return tr, fft, ratio_val, loop, loop_state
+
+
+def run(ctx):
+    model = ctx.model
+    from . import unitspec as _us
+    _us.api_verified(ctx, 'C03.R2')
+    cont = model.cls('Container')
+    n_capacity = 0
+    # ------------------------------------------------------------------ R1 capacity gates
+    n_capacity = capacity_gates(ctx, 'C03.R1')
     floor(ctx, 'functions/objects that can gain volume', n_capacity, 2)
     # rounded-compare: every ordering comparison against a capacity
     n_cmp = 0
@@ -218,49 +279,10 @@ def run(ctx):
                            raising_when_over and c.op == 'le' and (f.exc or '') == 'ValueError', fact=str(c),
                            why='capacity test has the wrong orientation, strictness or exception type',
                            key='capacity compare orientation')
-    floor(ctx, 'capacity comparisons', n_cmp, 3)
+    floor(ctx, 'capacity comparisons', n_cmp, 2)
 
     # ------------------------------------------------------------------ R2 sufficiency per unit branch
-    tr = model.func('Container._transfer')
-    fft = ctx.flow('Container._transfer')
-    ratio = find_ratio(fft)
-    if ratio is None:
-        raise AnalysisError('Container._transfer: cannot find the per-substance factor `amount * ratio`')
-    ratio_val, loop = ratio
-    ratio_val = strip_clamp(ratio_val)
-    options = [o for o in definitions_of(ratio_val) if isinstance(o, Ref)]
-    ctx.ob('C03.R2', tr, tr.node.lineno, 'transfer has a branch per quantity unit (L, g, mol, U)', len(options) >= 4,
-           fact=f"{len(options)} definitions of the transfer ratio", why='a quantity unit lost its branch',
-           key='unit branch missing', nontrivial=False)
-    loop_state = fft.state_before(loop)
-
-    def ratio_le_one(c):
-        return c.op == 'le' and (c.left is ratio_val or unround(c.left)[0] is ratio_val) and const_value(c.right) == 1
-    global_gate = gate_with(loop_state, ratio_le_one, 'ValueError')
-    for o in options:
-        v = strip_refs(o)
-        unit_lbl = branch_label(fft.state_before(o.stmt))
-        ok = bool(global_gate)
-        fact = 'gate on the ratio itself' if ok else ''
-        if not ok and isinstance(v, ast.BinOp) and isinstance(v.op, ast.Div):
-            num, den = v.left, v.right
-
-            def enough(c, num=num, den=den):
-                return c.op == 'le' and (c.left is num or same_value(unround(c.left)[0], unround(num)[0])) and \
-                    (c.right is den or same_value(unround(c.right)[0], unround(den)[0]))
-            g = gate_with(fft.state_before(o.stmt), enough, 'ValueError')
-            ok = bool(g)
-            fact = str(g[0]) if g else f"ratio = {show(v, 80)} with no `requested > available -> ValueError` gate"
-        ctx.ob('C03.R2', tr, o.lineno, f"sufficiency gate on the `{unit_lbl}` branch of the transfer", ok, fact=fact,
-               why=f"a transfer in {unit_lbl} can take more than the source holds (ratio > 1 gives negative amounts)",
-               key=f"no sufficiency gate on unit branch {unit_lbl}")
-
-    # requested and available are measured alike (units engine): otherwise the gate compares apples with pears
-    from . import targets
-    from .. import uscan
-    sc = targets.scan(ctx, 'Container._transfer')
-    uscan.report_sinks(ctx, lambda cat: 'C03.R2' if cat in ('sum-mix', 'convert-from-unit', 'add-units', 'compare-units',
-                                                            'to-storage', 'storage-label') else None, sc)
+    tr, fft, ratio_val, loop, loop_state = sufficiency(ctx, 'C03.R2')
 
     # ------------------------------------------------------------------ R3 sign of requests
     def sign_gate_on(state, pred_value, strict_ok=True):
@@ -389,6 +411,9 @@ def run(ctx):
                                                     'dilute', 'fill_to') or
            (isinstance(c.func, ast.Name) and c.func.id == 'Container')]
     floor(ctx, 'operation calls in bake', len(ops), 8)
+    # plate / slice operations go through the gated container operations for every addressed well
+    from .c07 import forwarding
+    forwarding(ctx, 'C03.R6')
     ctx.ob('C03.R6', bake, bake.node.lineno, 'bake performs its steps through the public operations', len(ops) >= 8,
            fact=f"{len(ops)} operation calls", nontrivial=False, key='bake operation calls')
 
@@ -401,7 +426,7 @@ def run(ctx):
                            'residual test covers all rows; numeric refusals raise ValueError; bake only calls the gated '
                            'operations. Decides presence/shape/strictness of the gates, not their sufficiency for all '
                            'reachable floating-point states.',
-            'coverage': {'ratio_branches': len(options)}}
+            'coverage': {}}
 
 
 def solver_postconditions(ctx, rule):
